@@ -94,7 +94,14 @@ fn inv(op: &Op, _ctx: &dyn Context, operands: &mut dyn CoordinateSet) -> usize {
             operands.set_coord(i, &Coor4D::nan());
             continue;
         }
-        let lon = x.atan2(y) / n + lon_0;
+        // The cone covers a wedge of the plane only: a point outside of it
+        // (more than 180° from the central meridian) is the image of nothing
+        let dlon = x.atan2(y) / n;
+        if dlon.abs() > std::f64::consts::PI + 1e-9 {
+            operands.set_coord(i, &Coor4D::nan());
+            continue;
+        }
+        let lon = dlon + lon_0;
         operands.set_xy(i, lon, lat);
         successes += 1;
     }
